@@ -8,7 +8,10 @@ inside a parent repeated twice, together with every other loop of the same id}, 
 transaction set and a second functional group (envelope loops: also a second interchange and the nested
 repeats); the document with every optional node of the map; only documents the independent grammar's
 reference parser accepts as generated (gen.selfcheck).  Every document is read with
-X12ContextReader.iter_segments(L.id) and with iter_segments(None).
+X12ContextReader.iter_segments(id) for the id of L, of the loop(s) enclosing L, and with iter_segments(None).
+Second family: the shared conformant corpus (quick: 8 shapes per map; thorough: every single deviation from
+the minimal document), each document read with every loop id occurring in it, one that does not, and None.
+When the reader stops early, the loss is reported and the remaining oracles are applied to the yielded prefix.
 
 Oracle (mc.ref tokenizer + mc.grammar/mc.gen loop instances, no pyx12 code):
   * flattening every yielded node with iterate_segments(), in the order yielded, gives exactly the source
